@@ -401,8 +401,8 @@ class Path:
         """Materialise a lazy symbolic value."""
         typ = lz.typ
         ov = self.ex.overrides.get(lz.name)
-        if ov is not None:
-            typ = ov
+        if ov is not None and not (ov == ('numstr',) and typ != ('str',)):
+            typ = ov          # (a 'numstr' override only refines a field declared `str`)
         return self.fresh(typ, lz.name)
 
     def fresh(self, typ, name: str):
@@ -827,6 +827,8 @@ class Path:
         if isinstance(v, FlagV):
             return v.bits != 0
         if isinstance(v, (FuncV, ClassV, ExtV, ModV, LambdaV)):
+            return True
+        if type(v).__name__ == 'FreeCons':
             return True
         if isinstance(v, SymFloat):
             raise Unsupported('truthiness of symbolic float')
@@ -1406,6 +1408,10 @@ class Path:
             return BoundBuiltin(f'symstr.{attr}', v)
         if type(v).__name__ == 'MatchV':
             return BoundBuiltin(f'match.{attr}', v)
+        if type(v).__name__ == 'FreeCons':
+            if attr in v.fields:
+                return v.fields[attr]
+            raise SymRaise(mk_exc('AttributeError'), f'{v.name}.{attr}')
         raise Unsupported(f'attribute {attr} of {v!r}')
 
     def class_attr(self, ci: ClassInfo, attr: str, expr):
